@@ -395,18 +395,30 @@ def reverseCore (len : Nat) : M σ Ret := fun s =>
   (do forUp (fun lower => reverseStep O lower (len - lower - 1)) 0 middle            -- 5, 6
       pure (Ret.val .recv)) s                                                        -- 7
 
+/-- §15.4.4.5 steps 8 / 10.c: "" for undefined and null, otherwise ToString(element) -/
+def joinElement (e : Val) : M σ (List Nat) :=
+  match e with
+  | .undef => pure []
+  | .null => pure []
+  | e => do
+    let p ← O.conv e                 -- ToString of an object: ToPrimitive, hint String
+    pure (E.ts p)
+
+/-- step 10.a–e of §15.4.4.5 (and of §15.4.4.3) for one k -/
+def appendNext (elem : Val → M σ (List Nat)) (sep : List Nat) (k : Nat) (r : List Nat) : M σ (List Nat) := fun s =>
+  let sr := r ++ sep                                                                -- a: S = R + sep
+  let element := O.get s k                                                          -- b
+  (do let next ← elem element                                                        -- c
+      pure (sr ++ next)) s                                                          -- d
+
 /-- §15.4.4.5 join -/
-def joinCore (len : Nat) (args : List Val) : M σ Ret := fun s =>
+def joinCore (len : Nat) (args : List Val) : M σ Ret :=
   let sep := if argAt args 0 = .undef then [44] else E.ts (argAt args 0)             -- 4, 5
-  if len = 0 then .ok (Ret.val (.str [])) s                                          -- 6
-  else
-    let str (k : Nat) : List Nat :=
-      match O.get s k with
-      | .undef => []
-      | .null => []
-      | element => E.ts element
-    let r := (List.range (len - 1)).foldl (fun r k => (r ++ sep) ++ str (k + 1)) (str 0)   -- 7–10
-    .ok (Ret.val (.str r)) s                                                         -- 11
+  if len = 0 then pure (Ret.val (.str []))                                           -- 6
+  else do
+    let r0 ← (fun s => joinElement O E (O.get s 0) s)                                -- 7, 8
+    let r ← foldUp (appendNext O (joinElement O E) sep) 1 (len - 1) r0               -- 9, 10
+    pure (Ret.val (.str r))                                                          -- 11
 
 /-- §15.4.4.3 steps 7–8 (and 10.c–d) for one element: "" for undefined and null; otherwise elementObj = ToObject(element),
     func = elementObj.[[Get]]("toLocaleString"), TypeError unless callable, "the result of calling the [[Call]] internal
@@ -421,19 +433,12 @@ def localeElement (e : Val) : M σ (List Nat) :=
     let p ← O.conv r
     pure (E.ts p)
 
-/-- §15.4.4.3 step 10.a–e for one k -/
-def localeNext (k : Nat) (r : List Nat) : M σ (List Nat) := fun s =>
-  let sr := r ++ [44]                                                               -- a: S = R + separator
-  let nextElement := O.get s k                                                      -- b
-  (do let r' ← localeElement O E nextElement                                         -- c, d
-      pure (sr ++ r')) s                                                            -- e
-
 /-- §15.4.4.3 toLocaleString, steps 4–11 (the separator is the implementation-defined ",") -/
 def toLocaleStringCore (len : Nat) : M σ Ret :=
   if len = 0 then pure (Ret.val (.str []))                                           -- 5
   else do
     let r0 ← (fun s => localeElement O E (O.get s 0) s)                              -- 6–8
-    let r ← foldUp (localeNext O E) 1 (len - 1) r0                                   -- 9, 10
+    let r ← foldUp (appendNext O (localeElement O E) [44]) 1 (len - 1) r0                                   -- 9, 10
     pure (Ret.val (.str r))                                                          -- 11
 
 /-- §15.4.4.4 step 5.b / 5.c for one item E -/
@@ -659,9 +664,15 @@ def join (args : List Val) : M σ Ret := do
       pure (args.set 0 (.str (E.ts p))))            -- 5: sep = ToString(separator)
   joinCore O E len pargs
 
-/-- §15.4.4.2 toString: "the result of calling the [[Call]] internal method of func [= join] providing array as the this
-    value and an empty arguments list" -/
-def toStringS (_args : List Val) : M σ Ret := join O E []
+/-- §15.4.4.2 toString: 2 func = array.[[Get]]("join"); 3 if IsCallable(func) is false, func is Object.prototype.toString
+    (§15.2.4.2: "[object " + class + "]"); 4 "the result of calling the [[Call]] internal method of func providing array as
+    the this value and an empty arguments list" -/
+def toStringS (_args : List Val) : M σ Ret := do
+  let func ← O.joinGet                                                               -- 2
+  match func with
+  | .builtin => join O E []                                                          -- 4, func = §15.4.4.5
+  | .user => do let v ← O.userJoin []; pure (Ret.val v)                              -- 4, func = a function of the script
+  | .other => fun s => .ok (Ret.val (O.objToString s)) s                             -- 3, 4
 
 /-- §15.4.4.3: 2–3 len, then the elements in turn; the arguments of the call are not used -/
 def toLocaleStringS (_args : List Val) : M σ Ret := do
@@ -697,6 +708,9 @@ def specOps (E : Env) : Ops St where
   conv := scriptedConv (put E) delete (fun o => toUint32 E (get o .length))
   thisRaw := fun s => s.thisRaw
   locale := scriptedLocale (put E) delete (fun o => toUint32 E (get o .length)) E
+  joinGet := scriptedJoinGet
+  userJoin := fun args => scriptedPlay (put E) delete (fun o => toUint32 E (get o .length)) (joinEntry args)
+  objToString := stObjToString
 
 /-- §15.4.5.1 step 3.c–d on an object-valued Desc.[[Value]]: newLen = ToUint32(Desc.[[Value]]) and then
     "if newLen is not equal to ToNumber(Desc.[[Value]]), throw a RangeError" — two conversions of the object -/
